@@ -305,3 +305,66 @@ func Verif_C08_request_sequence() {
 	verifapi.Assert("both-requests-answered", len(seq) >= 3)
 	verifapi.Assert("later-request-answered-as-on-a-fresh-session", verifSameAnswer(seq[len(seq)-1], alone[1]))
 }
+
+// verifListener hands out the given connections, then blocks until closed.
+type verifListener struct {
+	conns []net.Conn
+	done  chan struct{}
+}
+
+func (l *verifListener) Accept() (net.Conn, error) {
+	if len(l.conns) > 0 {
+		c := l.conns[0]
+		l.conns = l.conns[1:]
+		return c, nil
+	}
+	<-l.done
+	return nil, fmt.Errorf("use of closed network connection")
+}
+func (l *verifListener) Close() error   { return nil }
+func (l *verifListener) Addr() net.Addr { return verifAddr{} }
+
+// Verif_C08_silent_client_does_not_block_others: the accept loop of a TLS control listener gets a
+// client that connects and then says nothing (its handshake stays pending - crypto/tls replaced by a
+// model whose Handshake blocks until released), followed by an ordinary client. The second client is
+// greeted and its well-formed command answered while the first is still pending; when the first finally
+// fails its handshake its socket is closed, and the loop ends with the listener's context.
+func Verif_C08_silent_client_does_not_block_others() {
+	s := verifServer()
+	release := make(chan struct{})
+	handshakes := 0
+	closedTLS := 0
+	verifapi.Redirect("(*crypto/tls.Conn).Handshake", func(c *tls.Conn) error {
+		handshakes++
+		<-release
+		return fmt.Errorf("tls: first record does not look like a TLS handshake")
+	})
+	verifapi.Redirect("(*crypto/tls.Conn).SetDeadline", func(c *tls.Conn, t time.Time) error { return nil })
+	verifapi.Redirect("(*crypto/tls.Conn).Close", func(c *tls.Conn) error { closedTLS++; return nil })
+	silent := new(tls.Conn)
+	second := verifNewConn([]byte("x\n"))
+	li := &verifListener{conns: []net.Conn{silent, second}, done: make(chan struct{})}
+	ctx, cancel := context.WithCancel(context.Background())
+	finished := make(chan struct{})
+	go func() {
+		s.ConnectionListener(ctx, li)
+		close(finished)
+	}()
+	verifapi.Quiesce()
+	verifapi.Cover("first-client-pending")
+	verifapi.Assert("silent-client-is-in-its-handshake", handshakes == 1 && closedTLS == 0)
+	w := *second.writes
+	verifapi.Assert("second-client-served-while-the-first-is-pending", len(w) >= 2 && !verifIsError(w[len(w)-1]))
+	verifapi.Assert("second-client-s-session-finished", *second.closed >= 1)
+	close(release)
+	verifapi.Quiesce()
+	verifapi.Assert("failed-handshake-closes-its-socket", closedTLS == 1)
+	cancel()
+	close(li.done)
+	verifapi.Quiesce()
+	select {
+	case <-finished:
+	default:
+		verifapi.Assert("accept-loop-ends-with-its-context", false)
+	}
+}
